@@ -182,7 +182,7 @@ CHECKS = {
                     quick=dict(shards=4, checks=150, timeout=300),
                     thorough=dict(shards=16, checks=2500, timeout=1800))],
         rule='cases = generated hands with action time 0..30 s and 0-3 deadline extensions of 0..60 s at turns; oracle: for every turn of an unmoved player with wager actions t0+ActionTime <= deadline <= t1+ActionTime (t0 before the causing call, t1 at receipt), deadline 0 on every round close, at open and between hands, extension returns and publishes old+d exactly; non-trivial = a hand with turns in >=2 rounds or an extension; distinct = distinct abstract traces',
-        mandatory=dict(quick=['extension_during_settlement', 'turns', 'extension', 'extension_x3', 'action_time_0', 'multi_round_turns']),
+        mandatory=dict(quick=['round_closed_while_backend_next_failed', 'extension_during_settlement', 'turns', 'extension', 'extension_x3', 'action_time_0', 'multi_round_turns']),
         assumptions=ASSUME_COMMON,
     ),
     "C16": dict(
@@ -251,7 +251,7 @@ CHECKS = {
                  thorough=dict(shards=4, checks=1, timeout=1800)),
         ],
         rule="real decision-point snapshots presented to fresh player runners for every player and a stranger in status running / idle / suspended with action time 0, plus a timed batch (1-2 s thinking time, armed together, judged after one wait) in which half of the runners first go through a drawn history of status calls (Idle / Resume / Suspend / SetSuspendThreshold), requests that time out at once and manual actions; a model of that status interface says whether the final request must wait (running or idle below the threshold), is answered at once (explicit Suspend) or either (suspended by count); oracle: never call/bet/raise/allin, pass immediately when it is the only option, otherwise the conservative choice (ready > check > fold > mandatory payment of exactly the posted size) immediately when suspended or action time 0, else not before the thinking time and the conservative choice afterwards, at most one call, nothing when not asked; non-trivial = conservative choice differs from the first allowed action, a mandatory payment, or a timed case; distinct = distinct generated histories / presentations",
-        mandatory=dict(quick=['pay_with_table_level_raised_during_hand', "choice_pass", "choice_ready", "choice_check", "choice_fold", "choice_pay_ante", "choice_pay_sb", "choice_pay_bb", "suspended", "idle", "timed_1s", "timed_2s", "history_expect_wait", "history_expect_now", "history_idle_call_after_timeouts"]),
+        mandatory=dict(quick=['history_request_overtaken', 'late_update_without_request', 'pay_with_table_level_raised_during_hand', "choice_pass", "choice_ready", "choice_check", "choice_fold", "choice_pay_ante", "choice_pay_sb", "choice_pay_bb", "suspended", "idle", "timed_1s", "timed_2s", "history_expect_wait", "history_expect_now", "history_idle_call_after_timeouts"]),
         assumptions=["the upper side (acts once the time is up) relies on a 1.5 s margin"],
     ),
     "C20": dict(
